@@ -7,9 +7,9 @@ cd $S || exit 2
 echo "== validation of $ID on $(date -u +%FT%TZ)"
 echo "-- worktree diff stat:"; git -C $WT diff --stat | tail -3
 echo "-- demo on unchanged /repo (expect exit 0):"
-sh $S/demo.sh /repo > $S/.out_repo 2>&1; echo "exit $?"; tail -3 $S/.out_repo
+bash $S/demo.sh /repo > $S/.out_repo 2>&1; echo "exit $?"; tail -3 $S/.out_repo
 echo "-- demo on changed worktree $WT (expect non-zero):"
-sh $S/demo.sh $WT > $S/.out_wt 2>&1; echo "exit $?"; tail -3 $S/.out_wt
+bash $S/demo.sh $WT > $S/.out_wt 2>&1; echo "exit $?"; tail -3 $S/.out_wt
 echo "-- test suite in changed worktree (make -j16 -C tests check):"
 TD=$(mktemp -d); TMPDIR=$TD make -s -j16 -C $WT/tests check > $S/.out_tests 2>&1; rm -rf $TD; grep -E "tests succeeded|Tests failed" $S/.out_tests
 } > $S/validation.txt 2>&1
